@@ -58,6 +58,27 @@ def layouts():
         xdoc.add_container(d, "ROOT", hdr + [("p", "L"), ("p", "BLOB"), ("p", "TAIL")])
         out.append((f"dyn-bin-{slope}x{icpt:+d}-tail16", d))
     d, hdr = header_defn()
+    xdoc.add_param(d, "L", uint(8))
+    xdoc.add_param(d, "BLOB", binp(dyn("L", False, 8, 0)))
+    xdoc.add_container(d, "ROOT", hdr + [("p", "L"), ("p", "BLOB")])
+    out.append(("dyn-bin-last", d))
+    d, hdr = header_defn()
+    xdoc.add_param(d, "L", uint(8))
+    xdoc.add_param(d, "BLOB", binp(dyn("L", True, 8, 0)))
+    xdoc.add_param(d, "FIXB", binp({"k": "fixed", "n": 16}))
+    xdoc.add_container(d, "ROOT", hdr + [("p", "L"), ("p", "BLOB"), ("p", "FIXB")])
+    out.append(("dyn-bin-then-fixed-bin", d))
+    d, hdr = header_defn()
+    xdoc.add_param(d, "L", uint(8))
+    xdoc.add_param(d, "S", strp(dyn("L", False, 8, 0)))
+    xdoc.add_container(d, "ROOT", hdr + [("p", "L"), ("p", "S")])
+    out.append(("dyn-str-last", d))
+    d, hdr = header_defn()
+    xdoc.add_param(d, "A", uint(8))
+    xdoc.add_param(d, "FIXB", binp({"k": "fixed", "n": 32}))
+    xdoc.add_container(d, "ROOT", hdr + [("p", "A"), ("p", "FIXB")])
+    out.append(("fixed-bin-last", d))
+    d, hdr = header_defn()
     xdoc.add_param(d, "L", uint(8, "signed"))
     xdoc.add_param(d, "S", strp(dyn("L", True, 8, 0)))
     xdoc.add_param(d, "T8", uint(8))
